@@ -3,6 +3,7 @@ package main
 
 import (
 	"fmt"
+	"github.com/cnotch/ipchub/av/format/flv"
 	"strings"
 
 	"github.com/cnotch/ipchub/av/format/rtp"
@@ -19,11 +20,11 @@ import (
 // ---- independent classification of a packet (RFC 6184 / RFC 7798), by content ----
 
 type info struct {
-	video    bool
+	video         bool
 	sps, pps, vps []byte // NAL contents carried (nil if none)
-	keyStart bool        // carries the start of an IDR/IRAP slice
-	media    bool        // carries slice data (any fragment)
-	label    string
+	keyStart      bool   // carries the start of an IDR/IRAP slice
+	media         bool   // carries slice data (any fragment)
+	label         string
 }
 
 func classify264(p *rtp.Packet, label string) info {
@@ -111,7 +112,9 @@ type sym struct {
 	build func(seq uint16, ts uint32, tag byte) []*rtp.Packet // one symbol may be several packets (FU run)
 }
 
-func v(seq uint16, ts uint32, pl []byte) *rtp.Packet { return hx.Pkt(rtp.ChannelVideo, 96, false, seq, ts, pl) }
+func v(seq uint16, ts uint32, pl []byte) *rtp.Packet {
+	return hx.Pkt(rtp.ChannelVideo, 96, false, seq, ts, pl)
+}
 
 func alphabet264() []sym {
 	sps := func(t byte) []byte { return hx.NAL(3, 7, 6, t) }
@@ -123,10 +126,18 @@ func alphabet264() []sym {
 	}
 	_ = fu
 	return []sym{
-		{"SPS", func(s uint16, ts uint32, t byte) []*rtp.Packet { return []*rtp.Packet{v(s, ts, rtppack.H264Single(sps(t)))} }},
-		{"PPS", func(s uint16, ts uint32, t byte) []*rtp.Packet { return []*rtp.Packet{v(s, ts, rtppack.H264Single(pps(t)))} }},
-		{"IDR", func(s uint16, ts uint32, t byte) []*rtp.Packet { return []*rtp.Packet{v(s, ts, rtppack.H264Single(idr(t)))} }},
-		{"P", func(s uint16, ts uint32, t byte) []*rtp.Packet { return []*rtp.Packet{v(s, ts, rtppack.H264Single(pfr(t)))} }},
+		{"SPS", func(s uint16, ts uint32, t byte) []*rtp.Packet {
+			return []*rtp.Packet{v(s, ts, rtppack.H264Single(sps(t)))}
+		}},
+		{"PPS", func(s uint16, ts uint32, t byte) []*rtp.Packet {
+			return []*rtp.Packet{v(s, ts, rtppack.H264Single(pps(t)))}
+		}},
+		{"IDR", func(s uint16, ts uint32, t byte) []*rtp.Packet {
+			return []*rtp.Packet{v(s, ts, rtppack.H264Single(idr(t)))}
+		}},
+		{"P", func(s uint16, ts uint32, t byte) []*rtp.Packet {
+			return []*rtp.Packet{v(s, ts, rtppack.H264Single(pfr(t)))}
+		}},
 		{"STAP(SPS,PPS)", func(s uint16, ts uint32, t byte) []*rtp.Packet {
 			return []*rtp.Packet{v(s, ts, rtppack.H264StapA([][]byte{sps(t), pps(t)}))}
 		}},
@@ -164,7 +175,9 @@ func alphabet265() []sym {
 	cra := func(t byte) []byte { return hx.NAL265(21, 0, 1, 6, t) }
 	pfr := func(t byte) []byte { return hx.NAL265(1, 0, 1, 7, t) }
 	one := func(f func(byte) []byte) func(uint16, uint32, byte) []*rtp.Packet {
-		return func(s uint16, ts uint32, t byte) []*rtp.Packet { return []*rtp.Packet{v(s, ts, rtppack.H265Single(f(t)))} }
+		return func(s uint16, ts uint32, t byte) []*rtp.Packet {
+			return []*rtp.Packet{v(s, ts, rtppack.H265Single(f(t)))}
+		}
 	}
 	return []sym{
 		{"VPS", one(vps)}, {"SPS", one(sps)}, {"PPS", one(pps)}, {"IDR", one(idr)}, {"CRA", one(cra)}, {"P", one(pfr)},
@@ -426,6 +439,81 @@ func race(h265 bool, gop bool, labels []string) func(x *vrt.Exec) {
 	}
 }
 
+// raceFlv: an FLV consumer joins while tags are being published (the FLV cache and the join lock
+// have to act as one). The record must be the exact record of a join at some position inside the
+// window in which the join overlapped the publication.
+func raceFlv(gop bool) func(x *vrt.Exec) {
+	kinds := []tagKind{kMeta, kVSH, kASH, kKey, kInter, kAudio, kKey, kInter}
+	return func(x *vrt.Exec) {
+		media.VerifReset()
+		s := media.VerifNewFlvCacheStream("/c02f", gop)
+		var pub []*flv.Tag
+		var origTS []uint32
+		for i, kd := range kinds {
+			ts := uint32(5000 + 40*i)
+			pub = append(pub, mkTag(kd, ts, byte(i+1)))
+			origTS = append(origTS, ts)
+		}
+		r := &flvRec{pub: pub, kinds: kinds}
+		ev := 0
+		wb, we := make([]int, len(pub)), make([]int, len(pub))
+		joinCall, joinRet := 0, 0
+		vrt.GoNamed("publisher", func() {
+			for i, t := range pub {
+				ev++
+				wb[i] = ev
+				s.WriteFlvTag(t)
+				ev++
+				we[i] = ev
+			}
+		})
+		vrt.GoNamed("joiner", func() {
+			ev++
+			joinCall = ev
+			s.StartConsume(r, media.FLVPacket, "late")
+			ev++
+			joinRet = ev
+		})
+		vrt.WhenIdle()
+		lo, hi := 0, len(pub)
+		for i := range pub {
+			if we[i] < joinCall {
+				lo = i + 1
+			}
+		}
+		for i := len(pub) - 1; i >= 0; i-- {
+			if wb[i] > joinRet {
+				hi = i
+			}
+		}
+		sig, det := "", ""
+		for k := lo; k <= hi; k++ {
+			sg, d := judgeFlv(kinds, origTS, r.got, k, gop)
+			if sg == "" {
+				sig = ""
+				break
+			}
+			if sig == "" {
+				sig, det = sg, d
+			}
+		}
+		if sig != "" {
+			x.Failf(sig+" (join racing publication)", "no join position in [%d,%d] explains the record: %s", lo, hi, det)
+		}
+		for i, t := range pub {
+			if t.Timestamp != origTS[i] {
+				x.Failf("flv join cached-original-restamped", "published tag %d now carries timestamp %d", i, t.Timestamp)
+			}
+		}
+		x.Observe("lo=%d hi=%d rec=%d", lo, hi, len(r.got))
+		s.Close()
+		vrt.WhenIdle()
+		for _, bl := range vrt.Blocked() {
+			x.Failf("join stuck-goroutine "+bl.Name, "%s", bl.Frames)
+		}
+	}
+}
+
 func scenarios(thorough bool) []runner.Scenario {
 	p, sh := 2, 1
 	if thorough {
@@ -436,6 +524,8 @@ func scenarios(thorough bool) []runner.Scenario {
 		{Name: "race-h264-gop-2gops", Body: race(false, true, []string{"STAP(SPS,PPS)", "FU(IDR)x3", "P", "IDR", "P"}), P: p, Shards: sh},
 		{Name: "race-h264-nogop", Body: race(false, false, []string{"SPS", "PPS", "IDR", "P", "P"}), P: p, Shards: sh},
 		{Name: "race-h265-gop", Body: race(true, true, []string{"VPS", "SPS", "PPS", "IDR", "P", "P"}), P: p, Shards: sh},
+		{Name: "race-flv-gop", Body: raceFlv(true), P: p, Shards: sh},
+		{Name: "race-flv-nogop", Body: raceFlv(false), P: p, Shards: sh},
 	}
 }
 
